@@ -4,7 +4,45 @@
 #include "c11_ops.h"
 #include "dense.h"
 
+#include <dirent.h>
+#include <sched.h>
+#include <unistd.h>
+
 static const double EPS = 2.220446049250313e-16;
+
+// Schedule diversity for the repeated runs: confine every thread of this process (the OpenMP pool included) to `ncpu`
+// processors (0 = all again). On one processor the woken workers and the encountering thread interleave only at blocking
+// points and wake-up preemptions, which changes who arrives first at a `single`, a dynamic chunk or a nowait successor;
+// "reproducible" in the property has no "on an idle many-core machine" qualifier.
+static void confineThreads(int ncpu, unsigned salt)
+{
+    static cpu_set_t all;
+    static bool have = false;
+    if (!have) {
+        sched_getaffinity(0, sizeof all, &all);
+        have = true;
+    }
+    cpu_set_t set;
+    if (ncpu <= 0)
+        set = all;
+    else {
+        std::vector<int> cpus;
+        for (int i = 0; i < CPU_SETSIZE; i++)
+            if (CPU_ISSET(i, &all))
+                cpus.push_back(i);
+        CPU_ZERO(&set);
+        for (int k = 0; k < ncpu && !cpus.empty(); k++)
+            CPU_SET(cpus[(salt + (unsigned)k) % cpus.size()], &set);
+    }
+    if (DIR* d = opendir("/proc/self/task")) {
+        while (dirent* e = readdir(d)) {
+            const int tid = atoi(e->d_name);
+            if (tid > 0)
+                sched_setaffinity(tid, sizeof set, &set);
+        }
+        closedir(d);
+    }
+}
 
 static Outcome runCase(const KV& c)
 {
@@ -28,12 +66,23 @@ static Outcome runCase(const KV& c)
     o.nontrivial = t1 >= 2 || t2 >= 2;
     std::vector<double> a1, a2, a3, b;
     try {
+        const int confine = (int)c.getI("confine", 0);
         a1 = runOp11(c, t1);
+        if (confine) {
+            // second run on one processor, third on two (threads created during these runs inherit the restriction)
+            o.cls("repeated_runs_on_1_and_2_processors");
+            confineThreads(1, (unsigned)c.getU("x_seed"));
+        }
         a2 = runOp11(c, t1);
+        if (confine)
+            confineThreads(2, (unsigned)c.getU("x_seed"));
         a3 = runOp11(c, t1);
-        b  = runOp11(c, t2);
+        if (confine)
+            confineThreads(0, 0);
+        b = runOp11(c, t2);
     }
     catch (const std::exception&) {
+        confineThreads(0, 0);
         o.cls("rejected_by_exception");
         return o;
     }
@@ -143,6 +192,7 @@ static KV genCase()
     KV c = genCase11(false);
     c.putI("t1", rpick({1, 2, 3, 4, 5, 8, 16, 32}));
     c.putI("t2", rpick({1, 2, 3, 4, 5, 8, 16, 32}));
+    c.putI("confine", rint(0, 2) == 0 ? 1 : 0);
     return c;
 }
 
